@@ -13,7 +13,7 @@ ENGINE = "E1"
 TECHNIQUE = "bounded exhaustive enumeration of rules x listings x all 8 mode combinations, each a separate compile-and-match on the real code, relational oracle between the 8 results"
 RULE = ("rules: a stratified subfamily covering every operator, repetition form, capture kind, $deref, the shipped @any "
         "macro and valid_addr_range (every k-th rule of the C01-C05 families plus fixed @any / valid_addr rules) x EVERY "
-        "listing of length 0..3 over a 5-instruction alphabet, with distinct addresses and with addresses that restart at 0 (several code sections) x the 2x2x2 combinations of return mode (bool/list), search "
+        "listing of length 0..3 over a 5-instruction alphabet, with distinct addresses with addresses that restart at 0 (several code sections) and with 12-/16-digit addresses; plus listings of 4200/8300 (thorough ..65600) instructions whose only occurrence touches a block boundary (bool, first and all must agree) x the 2x2x2 combinations of return mode (bool/list), search "
         "mode (first/all) and address-only flag, each combination run as its own MasterOfPuppets construction and call. "
         "Oracle (relational, real code vs real code): bool <=> list non-empty in every mode; first-list = all-list[:1]; "
         "address-only[k] = text before the first '::' of full[k]; verdict identical across the 8 runs; a second "
@@ -29,7 +29,7 @@ MODES = [(r, m, o) for r in ("bool", "list") for m in ("first", "all") for o in 
 
 
 def bounds(tier):
-    return {"L_listing_len": 3, "stride": 60 if tier == "quick" else 16}
+    return {"L_listing_len": 3, "stride": 90 if tier == "quick" else 16}
 
 
 EXTRA = [
@@ -61,7 +61,8 @@ def shards(tier):
 
 def build_lsets(h, tier):
     # 'dup': addresses restart (objdump -d of an object file with several code sections prints every section from 0)
-    return {"c12": e1.ListingSet(h, ALPHA, 3), "dup": e1.ListingSet(h, [ALPHA[0], ALPHA[2], ALPHA[4]], 3, minlen=2, addrs=["0", "4", "0", "4"])}
+    return {"c12": e1.ListingSet(h, ALPHA, 3), "a64": e1.ListingSet(h, [ALPHA[0], ALPHA[2], ALPHA[4]], 2, minlen=1, addrs=["ffffffff81000004", "7ffff7dd1008"]),
+            "dup": e1.ListingSet(h, [ALPHA[0], ALPHA[2], ALPHA[4]], 3, minlen=2, addrs=["0", "4", "0", "4"])}
 
 
 def run_case(h, doc, macros, path):
@@ -101,7 +102,15 @@ def check_modes(out):
 def run_shard(shard, tier, h, res, known):
     rules = all_rules(tier)
     lsets = e1.get_lsets(h, tier, build_lsets)
-    ls = list(lsets["c12"]) + list(lsets["dup"])
+    ls = list(lsets["c12"]) + list(lsets["dup"]) + list(lsets["a64"])
+    LONGLIST = [(["mov", "push"], [("mov", ["%rax", "%rbx"]), ("push", ["%rax"])]),
+                (["mov", {"push": {"times": {"min": 1, "max": 3}}}, "ret"], [("mov", ["%rax", "%rbx"]), ("push", ["%rax"]), ("push", ["%rax"]), ("ret", [])]),
+                (["mov", {"$not": [{"$and": ["nop", "nop"]}]}, "ret"], [("mov", ["%rax", "%rbx"]), ("nop", []), ("ret", [])]),
+                # greedy repetition at the end of the rule: the reported text must be the same in both modes
+                (["mov", {"push": {"times": {"min": 1, "max": 3}}}], [("mov", ["%rax", "%rbx"]), ("push", ["%rax"]), ("push", ["%rax"]), ("push", ["%rax"])]),
+                # a window the rule must NOT match: the $not argument spans two instructions and matches here
+                (["mov", {"$not": [{"$and": ["push", "ret"]}]}], [("mov", ["%rax", "%rbx"]), ("push", ["%rax"]), ("ret", [])], False)]
+    e1.run_long_family(h, res, known, shard, LONGLIST, [4200, 8300] if tier == "quick" else [4200, 8300, 16500, 32800, 65600], prop=ID)
     h.decoy_every = 4          # 8 compilations per case: a decoy before every 4th keeps the cost in bounds
     for ri in range(shard["lo"], len(rules), shard["n"]):
         pat, macros, config = rules[ri]
@@ -142,6 +151,8 @@ def controls(h):
 
 
 def replay(case, h):
+    if case.get("family") == "longlisting":
+        return e1.replay_long_case(case, h)
     att = [(a, m, list(o)) for a, m, o in case["listing"]]
     p = h.listing_file(fmt_listing(att))
     try:
